@@ -42,6 +42,15 @@ def eval_test(test: ast.AST, env: Dict[str, Any]) -> Optional[bool]:
         return None if any(r is None for r in rs) else False
     if isinstance(test, ast.Compare) and len(test.ops) == 1:
         op, r = test.ops[0], test.comparators[0]
+        # a scenario may decide a whole atom (`x in known`, `a == b`) given in its positive form
+        pos = {ast.NotIn: ast.In, ast.NotEq: ast.Eq, ast.IsNot: ast.Is}.get(type(op))
+        forms = [(test.left, r)]
+        if isinstance(op, (ast.Eq, ast.NotEq, ast.Is, ast.IsNot)):
+            forms.append((r, test.left))
+        for l_, r_ in forms:
+            txt = ast.unparse(ast.Compare(left=l_, ops=[(pos or type(op))()], comparators=[r_]))
+            if txt in env and isinstance(env[txt], bool):
+                return (not env[txt]) if pos else env[txt]
         lv = _val(test.left, env)
         if lv is _UNKNOWN:
             return None
@@ -58,6 +67,17 @@ def eval_test(test: ast.AST, env: Dict[str, Any]) -> Optional[bool]:
             return lv is rv or lv == rv
         if isinstance(op, (ast.NotEq, ast.IsNot)):
             return not (lv is rv or lv == rv)
+        if isinstance(lv, (int, float)) and isinstance(rv, (int, float)) and not isinstance(
+                lv, bool) and not isinstance(rv, bool):
+            # a finite set of orderings: scenario values stand for <, ==, >
+            if isinstance(op, ast.Lt):
+                return lv < rv
+            if isinstance(op, ast.LtE):
+                return lv <= rv
+            if isinstance(op, ast.Gt):
+                return lv > rv
+            if isinstance(op, ast.GtE):
+                return lv >= rv
         return None
     v = _val(test, env)
     if v is _UNKNOWN:
